@@ -2,7 +2,7 @@ def obligations(tier):
     T = tier == "thorough"
     to = 2400 if T else 280
     obs = []
-    ml = 8 if T else 5
+    ml = 6 if T else 5
     for lo, hi in [(0, 4)] + [(k, k) for k in range(5, ml + 1)]:
         obs.append(dict(name="humansize-parse-len%d-%d" % (lo, hi), harness="hsize.c", entry="h_parse", defs=["MINL=%d" % lo, "MAXL=%d" % hi], unwind=hi + 4, flags=["--object-bits", "10"],
                         backends=["cadical"], timeout=to,
